@@ -87,6 +87,50 @@ def lex_explore(rep, sc, cases, rng, cap, fullcap, nlong, ng="off", alpha_cap=5,
     return {"acc": acc, "recs": recs, "lcases": lcases, "lruns": lruns, "idx": idx, "runner": runner, "cases": cases}
 
 
+def with_steps(sc, X, run):
+    """the same input again with the PushRune log (for classification of a failing run that was recorded without it)"""
+    if run["full"]:
+        return run
+    c = X["acc"][run["c"] - 1]
+    recs = lcase.run_jobs(sc, X["runner"], [{"case": c["gen"]["pkg"], "alphabet": [], "maxlen": -1, "fulllen": 0, "extra": [run["in"]]}], shards=1)
+    return tlc_lrun(recs[0], run["c"] - 1, run["ng"])
+
+
+def state_before_eof(run):
+    """recorded state of the machine when EOF / the last result was returned: the state after the last consume step"""
+    st = None
+    for s in run["steps"]:
+        if s[0] == -2:
+            st = 0
+        elif s[1] == 0:
+            st = s[2]
+        elif s[1] in (1, 2, 3):
+            st = 0
+    return st
+
+
+def stopped_in_ng_state(sc, X, run, tok):
+    """did the real lexer produce token `tok` = [ty, start, end] from a table state that carries the non-greedy flag?"""
+    run = with_steps(sc, X, run)
+    c = X["acc"][run["c"] - 1]
+    off, st, mode = 0, 0, 0
+    k = 0
+    chars = run["chars"]
+    ci = 0
+    for s in run["steps"]:
+        if s[0] == -2:
+            continue
+        if s[1] == 0:
+            off += chars[ci][1] if ci < len(chars) else 0
+            ci += 1
+            st, mode = s[2], s[4]
+        elif s[1] == 1 and off == tok[2]:
+            mt = c["gen"]["tables"][mode if mode >= 0 else 0]
+            i0 = mt[st]
+            return mt[i0 + 1] % 2 == 1
+    return False
+
+
 def lex_cov(rep, X, rule, nontrivial, tlcs, tv):
     rep.coverage.update({
         "states": sum(r.distinct for r in tlcs), "transitions": sum(r.states for r in tlcs),
@@ -130,8 +174,10 @@ def c02(tier):
         while k < len(got) and k < len(want) and got[k] == want[k]:
             k += 1
         nbytes = sum(w for _, w in run["chars"])
-        if k < len(got) and k < len(want) and got[k][0] == 0 and want[k][0] == 1 and got[k][1] == want[k][1] and got[k][1] < nbytes:
-            # plain EOF although characters of an unfinished token were consumed: the start state was merged with a mid-token state
+        if k < len(got) and k < len(want) and got[k][0] == 0 and want[k][0] == 1 and got[k][1] == want[k][1] and got[k][1] < nbytes \
+                and state_before_eof(with_steps(sc, X, run)) == 0:
+            # plain EOF although characters of an unfinished token were consumed, and the machine *is* in state 0:
+            # the start state was merged with a mid-token state
             rep.failure("c02.eof-in-start-state-instead-of-error", "spec %s input %r: EOF at offset %d of %d where the rules define an error" % (
                 c["id"], show_input(run["chars"]), got[k][1], nbytes), lreplay(c, run, {"want": want}))
             continue
@@ -255,8 +301,10 @@ def c08(tier):
             g = got[b["badtok"] - 1]
             if g[0] in ngtoks:
                 sig = "c08.ng-token-not-shortest:" + c["id"]
-            else:
+            elif stopped_in_ng_state(sc, X, run, g):
                 sig = "c08.ng-mark-truncates-greedy-rule"
+            else:
+                sig = "c08.greedy-token-too-short:" + c["id"]
             desc = "spec %s input %r: token %s is not the %s match of its rule (tokens %s)" % (
                 c["id"], show_input(run["chars"]), g, "shortest" if g[0] in ngtoks else "longest", got)
         else:
@@ -267,7 +315,7 @@ def c08(tier):
             w = want[k] if k < len(want) else None
             if g and w and g[1] == w[1] and g[0] in ngtoks and w[0] == g[0] and g[2] > w[2]:
                 sig = "c08.ng-token-too-long:" + c["id"]
-            elif g and w and g[1] == w[1] and g[0] > 1 and g[0] not in ngtoks and g[2] < w[2]:
+            elif g and w and g[1] == w[1] and g[0] > 1 and g[0] not in ngtoks and g[2] < w[2] and stopped_in_ng_state(sc, X, run, g):
                 sig = "c08.ng-mark-truncates-greedy-rule"
             else:
                 sig = "c08.token-stream-differs:" + c["id"]
@@ -315,10 +363,12 @@ def c11(tier):
     full = [r for r in lruns if r["full"]]
     tv, rt = run_lextrace(sc, X["lcases"], full, timeout=2400)
     tvr = trace_by_run(full, tv)
-    ndrift = 0
+    ndrift = len([r for r in full if not r["budget"] and not r["panic"] and tvr[id(r)].get("lt") != "ok"])
+    if ndrift:
+        rep.note("DRIFT: %d of %d runs are not LexerRT behaviours (the accounting below does not depend on the model)" % (ndrift, len(full)))
+    judged = []
     for r in full:
         c = acc[r["c"] - 1]
-        v = tvr[id(r)]
         if r["panic"]:
             rep.failure("c11.panic:" + c["id"], "lexing panicked on %r: %s" % (show_input(r["chars"]), r["panic"]), lreplay(c, r))
             continue
@@ -334,24 +384,29 @@ def c11(tier):
                 sig = "c11.no-eof:" + c["id"]
             rep.failure(sig, "spec %s input %r: EOF not reached within the budget" % (c["id"], show_input(r["chars"])), lreplay(c, r))
             continue
-        if v.get("lt") != "ok":
-            ndrift += 1
-            continue
-        ok, why = partition_ok(v["segs"], v["nbytes"])
-        if not ok:
-            if "dropped at EOF" in why:
-                # was the pending text accumulated by action-less fragments (try-again results), or merely consumed?
-                k = len(r["steps"]) - 1
-                accum = False
-                while k >= 0 and r["steps"][k][1] in (0, 3, 4):
-                    accum = accum or r["steps"][k][1] == 3
-                    k -= 1
-                sig = "c11.eof-drops-accumulated-text" if accum else "c11.eof-in-start-state-drops-consumed-text"
+        judged.append(r)
+    # the accounting itself: from the observed PushRune results only (LexAccount.tla), whether or not the run conforms to the model
+    abad, ra = run_lexaccount(sc, X["lcases"], judged)
+    for b in abad:
+        r = judged[b["r"]]
+        c = acc[r["c"] - 1]
+        if b["end"] == "eof" and b["lost"]:
+            k = len(r["steps"]) - 1
+            accum = False
+            while k >= 0 and r["steps"][k][1] in (0, 3, 4):
+                accum = accum or r["steps"][k][1] == 3
+                k -= 1
+            if accum:
+                sig = "c11.eof-drops-accumulated-text"
+            elif state_before_eof(r) == 0:
+                sig = "c11.eof-in-start-state-drops-consumed-text"
             else:
-                sig = "c11.unaccounted-text:" + c["id"]
-            rep.failure(sig, "spec %s input %r: %s" % (c["id"], show_input(r["chars"]), why), lreplay(c, r, {"segments": v["segs"]}))
-    if ndrift:
-        rep.note("DRIFT: %d of %d runs are not LexerRT behaviours; accounting not evaluated on them" % (ndrift, len(full)))
+                sig = "c11.eof-with-unfinished-token:" + c["id"]
+            why = "text %s dropped at EOF (machine state %s)" % ([s for s in b["segs"] if s[0] == "lost"], state_before_eof(r))
+        else:
+            sig = "c11.unaccounted-text:" + c["id"]
+            why = "segments %s do not partition the %d input bytes (%s)" % (b["segs"], b["nbytes"], b["end"])
+        rep.failure(sig, "spec %s input %r: %s" % (c["id"], show_input(r["chars"]), why), lreplay(c, r, {"segments": b["segs"]}))
     nn = {}
     for r in full:
         if len(r["chars"]) >= 3:
@@ -359,6 +414,7 @@ def c11(tier):
     lex_cov(rep, X, "rule sets incl. rules that match the empty string, accumulating fragments, modes, inputs ending in the middle "
             "of a construct; the accounting (token / discarded / error stretch segments are consecutive and cover the input) is "
             "evaluated on the ghost segment list of the trace-validated driver model; non-trivial = spec with >= 3 inputs of >= 3 characters",
-            len([1 for v in nn.values() if v >= 3]), [rt], tv)
+            len([1 for v in nn.values() if v >= 3]), [rt, ra], tv)
     rep.coverage["trace_drift"] = ndrift
+    rep.coverage["runs_accounted"] = len(judged)
     return rep.finish("model_checking")
